@@ -28,9 +28,12 @@ def _rand_tree(rng, depth, with_none, alen=None):
         if rng.random() < 0.5:
             return onp.float32(rng.uniform(-3, 3))
         return onp.array([rng.uniform(-3, 3) for _ in range(alen)], dtype=onp.float32)
-    if kind < 0.8:
+    if kind < 0.7:
         return {f"k{i}": _rand_tree(rng, depth - 1, with_none, alen) for i in range(rng.randint(1, 3))}
-    return [_rand_tree(rng, depth - 1, with_none, alen) for _ in range(rng.randint(1, 3))]
+    if kind < 0.85:
+        return [_rand_tree(rng, depth - 1, with_none, alen) for _ in range(rng.randint(1, 3))]
+    # tuples are pytree containers too (a pair of gains (kp, kd), ...)
+    return tuple(_rand_tree(rng, depth - 1, with_none, alen) for _ in range(rng.choice([1, 2, 2, 2, 3])))
 
 
 def _map(f, *trees):
@@ -41,6 +44,8 @@ def _map(f, *trees):
         return {k: _map(f, *[x[k] for x in trees]) for k in t}
     if isinstance(t, list):
         return [_map(f, *[x[i] for x in trees]) for i in range(len(t))]
+    if isinstance(t, tuple):
+        return tuple(_map(f, *[x[i] for x in trees]) for i in range(len(t)))
     return f(*trees)
 
 
@@ -59,7 +64,7 @@ def _leaves(t):
 def _depth(t):
     if isinstance(t, dict):
         return 1 + max([_depth(v) for v in t.values()] or [0])
-    if isinstance(t, list):
+    if isinstance(t, (list, tuple)):
         return 1 + max([_depth(v) for v in t] or [0])
     return 0
 
@@ -171,7 +176,7 @@ def run(ctx):
                 if isinstance(b, dict):
                     for k in b:
                         chk(b[k], None if o is None else o[k], e[k], path + k + "/")
-                elif isinstance(b, list):
+                elif isinstance(b, (list, tuple)):
                     for i in range(len(b)):
                         chk(b[i], None if o is None else o[i], e[i], path + str(i) + "/")
                 elif b is not None:
@@ -192,6 +197,17 @@ def run(ctx):
                 res.fail("shared", f"Shared.apply did not copy the shared leaf / changed another leaf: {sa}", dict(kind="shared"))
             if sb["a"] is not None or float(sb["b"]) != float(sp["b"]) or float(sb["c"]["d"]) != 1.5:
                 res.fail("shared", f"Shared.inv(apply(x)) != x: {sb}", dict(kind="shared"))
+            # ---- Shared with several target nodes (`where` returns a sequence): b is shared into a and c/e
+            sp2 = {"a": None, "b": jnp.asarray(rng.uniform(-1, 1), dtype=jnp.float32), "c": {"d": jnp.asarray(1.5), "e": None}}
+            S2 = base.Shared.init(where=lambda p: (p["a"], p["c"]["e"]), replace_fn=lambda p: (p["b"], p["b"]), inverse_fn=lambda p: (None, None))
+            sa2 = S2.apply(sp2)
+            sb2 = S2.inv(sa2)
+            if float(sa2["a"]) != float(sp2["b"]) or float(sa2["c"]["e"]) != float(sp2["b"]) or float(sa2["b"]) != float(sp2["b"]) or float(sa2["c"]["d"]) != 1.5:
+                res.fail("shared", f"Shared.apply (two target nodes) did not copy the shared leaf / changed another leaf: {sa2}", dict(kind="shared"))
+            if jax.tree_util.tree_structure(sb2, is_leaf=lambda x: x is None) != jax.tree_util.tree_structure(sp2, is_leaf=lambda x: x is None) or sb2["a"] is not None or sb2["c"]["e"] is not None \
+                    or float(sb2["b"]) != float(sp2["b"]) or float(sb2["c"]["d"]) != 1.5:
+                res.fail("shared", f"Shared.inv(apply(x)) != x with two target nodes: x={sp2}, got {sb2}", dict(kind="shared"))
+            res.count("shared_multi")
             # Identity
             I = base.Identity.init()
             if L(I.inv(I.apply(xs))) != lx:
